@@ -47,7 +47,8 @@ def run(ctx):
             J = np.reshape(J, (m, n)) if np.size(J) == m * n else J
         if np.shape(J) == (m, n):
             h = kw.get('step') or 0.0
-            tol = 1e-12 if (affine and method == 'complex') else (max(1e-5, 20 * h) if method == 'forward' else max(1e-7, 20 * h * h))
+            # user-given relative steps: truncation ~h (forward) / h^2 (central) AND round-off ~eps/(h |x|): only gross errors are of interest
+            tol = 1e-12 if (affine and method == 'complex') else ((1e-5 if method == 'forward' else 1e-7) if not h else 1e-3)
             if not np.allclose(J, exact, rtol=tol, atol=tol * (1 + np.max(np.abs(exact)))):
                 ctx.violation('jacobian-value:%s' % method, 'nd_scipy.Jacobian(method=%r): entries differ from the analytic Jacobian by %.3g' % (method, float(np.max(np.abs(J - exact)))), desc)
         if boxed:
